@@ -72,6 +72,13 @@ func FindGrouping(n Node, name string, seen map[string]bool) *Grouping {
 					// module could not be found.
 					continue
 				}
+				if strings.Contains(pname, ":") {
+					// A name has one prefix. Going on with
+					// what is left of a:a:...:g would double
+					// the work with every further prefix
+					// when two imports share the prefix a.
+					continue
+				}
 				if g := FindGrouping(i.Module, pname, seen); g != nil {
 					return g
 				}
